@@ -14,13 +14,16 @@ same inputs gives other bytes than the C code (otherwise it is C02's).
 The opcode/emulation form (ORC_TARGET_C_OPCODE) is what tools/generate-emulation prints: the
 tool is built against the current library, run, and its output must be the checked-in
 orc/orcemulateopcodes.c / .h byte for byte - so the C02 verdict on the checked-in emulator is a
-verdict on that form of the generator too.
+verdict on that form of the generator too.  The loads with index maps (loadoff, loadupdb,
+loadupib, ldresnear, ldreslin) are compiled to C too and run by harness/h_guard on arrays mapped
+exactly as large as spec/Footprint.tla entitles (C03's machinery): no fault, equal to emulation,
+and the reference values of the index map (Trace_Footprint).
 """
 import os, json, re, filecmp
 from ..common import *
 from .. import trace as T
 from .. import genops
-from . import c01, c02
+from . import c01, c02, c03
 
 VARIANTS_C = ("x", "b", "n")
 
@@ -190,13 +193,33 @@ def run(ctx):
         validate(ctx, t1, eo, "Trace_Ops", key_run, out_run, "c04op")
         t2 = c_paths(ctx, "h_prog", plines, "c04prog", VARIANTS_C, opt)
         validate(ctx, t2, ep, "Trace_Prog", key_prog, out_prog, "c04prog")
+    # loads with index maps (loadoff, loadupdb, loadupib, ldresnear, ldreslin) and a sample of plain
+    # opcodes in generated C, on arrays mapped exactly as large as the specification entitles
+    cfgs = c03.configs(ctx, 24 if quick else 60)
+    glines = []
+    for cf in cfgs:
+        names = c03.SPECIAL.get(cf["kind"]) or ["copyb", "addw", "convsbw", "mergebw", "splitwb", "accw", "mulslq"]
+        if cf["kind"] == "plain" and cf["n"] % 4:
+            continue
+        for nm in names:
+            for place in (0, 1):
+                for m in ((1,) if cf["kind"] != "plain" else (1, 3)):
+                    glines.append("%s %s %d %d %d %d %d %d %d %d" % (cf["kind"], nm, cf["n"], cf["off"], cf["b"], cf["c"],
+                                                                      cf["lo"], cf["hi"], place, m))
+    if quick:
+        ctx.rng.shuffle(glines)
+        glines = glines[:4000]
+    ctx.cov["guarded_plan_lines"] = len(glines)
+    gt = c_paths(ctx, "h_guard", glines, "c04guard", ("x", "n"), "-O2")
+    c03.guard_report(ctx, gt, "C04")
     ctx.cov["states"] = max(ctx.cov.get("states", 0), 1)
     ctx.cov["exhaustive"] = False
     ctx.cov["rule"] = ("every integer opcode x {array, parameter, constant} second operand x x1/x2/x4 and the 8 program "
                        "templates (1-D/2-D, accumulators) x C variants {executor function, bare backup body, bare NOEXEC "
                        "body} x gcc %s; regenerated emulator compared byte for byte" % "/".join(opts))
     ctx.assumptions += ["float opcodes and float/double parameters are C18's", "the C compiler is the installed gcc",
-                        "loads with index maps in generated C are not covered here"]
+                        "loads with index maps in generated C: footprint, equality with emulation and reference values "
+                        "through the guarded-memory harness of C03 (executor and NOEXEC forms)"]
 
 
 def replay(ctx, path):
